@@ -18,7 +18,7 @@ ASSUMPTIONS = ["numpy / CPython behave as documented", "grid shapes are passed a
                "lattice_dim=2 only"]
 NSHARDS = {"quick": 16, "thorough": 16}
 THRESHOLDS = {
-    "quick": {"repotests:ambient:gen:gen_dfs?repotests:runs": 50, "c01:percolation-volume": 150, "c01:percolation-volume:side>127": 60, "c01:extreme-draws": 40, "c01:shape-dtype:int8": 300, "c01:shape-dtype:uint8": 300, "c01:gen_dfs": 200, "c01:gen_prim": 200, "c01:gen_wilson": 200, "c01:gen_percolation": 200,
+    "quick": {"repotests:ambient:gen:gen_dfs?repotests:runs": 50, "c01:percolation-volume": 150, "c01:percolation-volume:side>127": 60, "c01:extreme-draws": 40, "c01:shape-dtype:int8": 300, "c01:shape-dtype:uint8": 300, "c01:shape-dtype:uint32": 300, "c01:wilson-unsigned-shape": 100, "c01:gen_dfs": 200, "c01:gen_prim": 200, "c01:gen_wilson": 200, "c01:gen_percolation": 200,
               "c01:gen_dfs_percolation": 200, "c01:oblong": 1, "c01:one-by-n": 1, "c01:p0": 1, "c01:p1": 1,
               "c01:spanning-checked:dfs": 100, "c01:spanning-checked:wilson": 100, "c01:consumed-stream": 50,
               "hits:gen_dfs": 1, "hits:gen_wilson": 1, "hits:gen_percolation": 1, "hits:gen_dfs_percolation": 1,
@@ -66,10 +66,13 @@ def run(ctx):
                     fn = GENERATORS_MAP[gen] if via_map else getattr(LatticeMazeGenerators, gen)
                     # the grid shape as an array of any integer dtype that holds it (the dataset layer passes int32/int64; int8 and
                     # uint8 are what coordinate arrays elsewhere in the library use)
-                    dts = [np.int64, np.int32, np.int16] + ([np.int8] if max(R, C) < 128 else []) + ([np.uint8] if max(R, C) < 256 else [])
-                    dt = dts[i % len(dts)] if variant == 0 or gen != "gen_wilson" else np.int64
+                    dts = [np.int64, np.int32, np.int16, np.uint16, np.uint32, np.uint64] + ([np.int8] if max(R, C) < 128 else []) + ([np.uint8] if max(R, C) < 256 else [])
+                    # (drawn per case: a running index would pair each generator with the same dtype for ever)
+                    dt = dts[int(rng.integers(len(dts)))]
                     case["shape_dtype"] = np.dtype(dt).name
                     ctx.tally(f"c01:shape-dtype:{np.dtype(dt).name}")
+                    if gen == "gen_wilson" and np.dtype(dt).kind == "u":
+                        ctx.tally("c01:wilson-unsigned-shape")
                     with ctx.guard(f"C01/{gen}/call", case), call_watchdog(ctx, 120, f"C01/{gen} {R}x{C}"):
                         maze = fn(np.array([R, C], dtype=dt), **kw)
                         # (if the watchdog fires the block is left here and the case is reported as inconclusive)
